@@ -30,6 +30,7 @@ TopoConsBend).  Everything is quantified over ALL scenes (node lists, paths, axi
                     the same place (the side of every node w.r.t. the edge is unchanged)
 -/
 import AdaptaVerif.Lemmas.TopoConsScan
+import AdaptaVerif.Lemmas.TopoConsScanNO
 import AdaptaVerif.Lemmas.TopoConsGen
 import AdaptaVerif.Lemmas.TopoConsRewrite
 import AdaptaVerif.Lemmas.TopoConsBend
@@ -101,6 +102,25 @@ theorem scan_openSegs_empty (d : Nat) (tb : Ev → Nat) (nodes : List Node) (seg
     (hpos : ∀ n ∈ nodes, n.r.lo (conj d) < n.r.hi (conj d)) :
     (scan d tb nodes segs).openSegs = [] :=
   AdaptaVerif.Lemmas.TopoConsScan.scan_openSegs_empty d tb nodes segs hids hsegs hpos
+
+/-- `scanNO` is `scan` with the `cs.push_back` of `NodeClose::process` recorded. -/
+theorem scanNO_fst (d : Nat) (tb : Ev → Nat) (nodes : List Node) (segs : List Seg) :
+    (scanNO d tb nodes segs).1 = scan d tb nodes segs :=
+  AdaptaVerif.Lemmas.TopoConsScanNO.scanNO_fst d tb nodes segs
+
+/-- The state machine pushes exactly the non-overlap constraints of the closed form `nonOverlapClosed` (for every event order `std::sort` may produce). -/
+theorem scanNO_mem_iff (d : Nat) (tb : Ev → Nat) (nodes : List Node) (segs : List Seg)
+    (hids : nodes.Pairwise (fun a b => a.id ≠ b.id))
+    (hsegs : segs.Pairwise (fun a b => ¬ (a.edge = b.edge ∧ a.idx = b.idx)))
+    (hpos : ∀ n ∈ nodes, n.r.lo (conj d) < n.r.hi (conj d))
+    (htbO : ∀ m ∈ nodes, ∀ n ∈ nodes, m.id ≠ n.id → tb (.nodeOpen m) ≠ tb (.nodeOpen n))
+    (htbC : ∀ m ∈ nodes, ∀ n ∈ nodes, m.id ≠ n.id → tb (.nodeClose m) ≠ tb (.nodeClose n))
+    (hkeys : ∀ m ∈ nodes, ∀ n ∈ nodes, m.id ≠ n.id →
+      m.r.lo (conj d) < n.r.hi (conj d) → n.r.lo (conj d) < m.r.hi (conj d) →
+      m.r.centre d ≠ n.r.centre d)
+    (c : NOC) :
+    c ∈ (scanNO d tb nodes segs).2 ↔ c ∈ nonOverlapClosed d (bCof tb) nodes :=
+  AdaptaVerif.Lemmas.TopoConsScanNO.scanNO_mem_iff d tb nodes segs hids hsegs hpos htbO htbC hkeys c
 
 /-! ### what is generated -/
 
